@@ -116,6 +116,20 @@ def task(W, payload):
                 if ln["ok"] and [[c[0], [list(kv) for kv in c[1]]] for c in ln["comps"]] != got:
                     out["diffs"].append({"stage": "S1", "what": "query_compartments", "prescribed": True, "op": op, "impl": got, "model": ln["comps"],
                                          "task": {"module": "c13", "fn": "task", "payload": payload}, "program": prog["build"]})
+                # a returned selection belongs to the caller: changing it in place must not change what a later selection returns
+                qa = dict(flt) if name is None else {"name": name, **dict(flt)}
+                try:
+                    first = m.query_compartments(dict(qa))
+                    if first is not m.compartments:       # (the model's own public list is the caller's to break: not a selection)
+                        first.extend(list(m.compartments)[:2]); first.reverse()
+                    again = [[c.name, [list(kv) for kv in c.strata.items()]] for c in m.query_compartments(dict(qa))]
+                    if again != brute:
+                        fail(out, "after the caller modified a returned selection in place, the same query selects other compartments", "c13", payload,
+                             query=op, got=again, want=brute, program=prog["build"])
+                    if [[c.name, [list(kv) for kv in c.strata.items()]] for c in m.compartments] != [[c[0], [list(kv) for kv in c[1]]] for c in comps]:
+                        fail(out, "modifying a returned selection in place changed the model's compartment list", "c13", payload, query=op, program=prog["build"])
+                except BaseException as e:
+                    fail(out, "query_compartments raised on a repeated query", "c13", payload, query=op, err=str(e)[:200], program=prog["build"])
                 # collection / predicate valued filters against the same brute force
                 if flt:
                     q2 = {k: [v, "zzz"] for k, v in flt}
@@ -148,6 +162,17 @@ def task(W, payload):
                 if py["flows"] != brute:
                     fail(out, "query_flows does not select exactly the flows whose source/destination strata contain the filters (a missing end never excludes)",
                          "c13", payload, query=op, got=py["flows"], want=brute, program=prog["build"])
+                try:
+                    ids = [id(f) for f in m.flows]
+                    first = m.query_flows(name, dict(fs) or None, dict(fd) or None)
+                    if first is not m.flows:              # an unfiltered query returns model.flows itself on the unchanged tree (documented in DESIGN 8.3)
+                        first.extend(list(m.flows)[:2]); first.reverse()
+                    again = [ids.index(id(f)) for f in m.query_flows(name, dict(fs) or None, dict(fd) or None)]
+                    if again != brute or [id(f) for f in m.flows] != ids:
+                        fail(out, "after the caller modified a returned selection in place, the same flow query selects other flows", "c13", payload,
+                             query=op, got=again, want=brute, program=prog["build"])
+                except BaseException as e:
+                    fail(out, "query_flows raised on a repeated query", "c13", payload, query=op, err=str(e)[:200], program=prog["build"])
                 if ln["ok"] and ln["flows"] != py["flows"]:
                     out["diffs"].append({"stage": "S1", "what": "query_flows", "prescribed": True, "op": op, "impl": py["flows"], "model": ln["flows"],
                                          "task": {"module": "c13", "fn": "task", "payload": payload}, "program": prog["build"]})
